@@ -454,6 +454,7 @@ pub fn run_conc(case: &ConcCase, opts: Opts) -> RunResult {
 			stagnation: 0,
 			writer_pref: case.writer_pref,
 			forced: case.forced.clone(),
+			wait_noted: vec![false; n],
 		});
 	}
 	let (done_tx, done_rx) = mpsc::channel::<Tid>();
